@@ -114,3 +114,15 @@ pub fn draw_grad_collector<M: Math>(
     c.is_good = is_good;
     c
 }
+
+/// Overwrite the untransformed position and gradient of a point (to hand synthetic points to the
+/// mass-matrix initialisers).
+pub fn point_set_position_gradient<M: Math>(
+    p: &mut TransformedPoint<M>,
+    math: &mut M,
+    position: &[f64],
+    gradient: &[f64],
+) {
+    math.read_from_slice(&mut p.untransformed_position, position);
+    math.read_from_slice(&mut p.untransformed_gradient, gradient);
+}
